@@ -71,6 +71,12 @@ class Engine:
         self.specs = {}
         self.native_ns = {}
         self.native_imports = {}
+        try:
+            import infinity
+
+            self.native_ns["inf"] = infinity.inf
+        except ImportError:
+            pass
         self.assumptions = []  # free-text list of assumed facts (axioms, external contracts)
         self._oid = itertools.count(1)
         self._ast_cache = {}
